@@ -1797,8 +1797,11 @@ class Exists(QuantifiedConditional):
         self._eval_parent_ = parent
         seen_var_values = []
         for val in self.condition._evaluate__(sources, parent=self):
+            # a false result may have stopped before binding the quantified variable
+            if val.is_false:
+                continue
             var_val = val[self.variable._id_]
-            if val.is_true and var_val.value not in seen_var_values:
+            if var_val.value not in seen_var_values:
                 seen_var_values.append(var_val.value)
                 yield OperationResult(val.bindings, False, self)
 
